@@ -56,5 +56,19 @@ Shapes ==
    CaseOf("C16/shape/if-in-first", <<If(<<Branch(T, <<If1(T, <<L("a")>>)>>), Branch(T, <<L("b")>>)>>, <<L("c")>>)>>),
    CaseOf("C16/shape/ifs-in-funcs", <<Func("p", <<>>, <<>>, <<If1(T, <<If1(T, <<L("p")>>)>>)>>), Func("q", <<>>, <<>>, <<If1(T, <<L("q1")>>), If1(T, <<If1(T, <<L("q2")>>)>>)>>), ExprS(CallE("p", <<>>)), ExprS(CallE("q", <<>>)), If1(T, <<If1(T, <<L("top")>>)>>)>>),
    CaseOf("C16/shape/loops-in-funcs", <<Func("p", <<>>, <<>>, <<Lp("i", <<Lp("j", <<ContinueS>>), BreakS>>)>>), Func("q", <<>>, <<>>, <<Lp("i", <<BreakS>>), Lp("j", <<ContinueS>>)>>), ExprS(CallE("p", <<>>)), ExprS(CallE("q", <<>>)), Lp("k", <<ContinueS>>)>>)}
-ASSUME ndJsonSerialize("fam.ndjson", SetToSeq(Empty \cup DeepCases \cup FuncCases \cup Builtins \cup Shapes))
+
+\* label allocation across scopes: two functions and the top level each hold one structure; every position prints, so that a jump
+\* landing in another scope's label (forward-then-wrap search) changes the output
+Structs == {"if", "ifif", "ifloop", "loopif", "ifelseif"}
+Struct(k, tag, v) ==
+  CASE k = "if" -> <<If1(CmpE(">", Var(v), I(0)), <<L(tag \o "-a")>>), L(tag \o "-z")>>
+    [] k = "ifif" -> <<If1(CmpE(">", Var(v), I(0)), <<L(tag \o "-a"), If1(CmpE(">", Var(v), I(1)), <<L(tag \o "-b")>>), L(tag \o "-c")>>), L(tag \o "-z")>>
+    [] k = "ifloop" -> <<If1(CmpE(">", Var(v), I(0)), <<Lp(tag \o "i", <<If1(CmpE("==", Var(tag \o "i"), I(1)), <<L(tag \o "-b")>>), L(tag \o "-c")>>), L(tag \o "-d")>>), L(tag \o "-z")>>
+    [] k = "loopif" -> <<Lp(tag \o "i", <<If(<<Branch(CmpE("==", Var(tag \o "i"), Var(v)), <<L(tag \o "-a")>>)>>, <<If1(CmpE(">", Var(v), I(0)), <<L(tag \o "-b")>>), L(tag \o "-c")>>), L(tag \o "-d")>>), L(tag \o "-z")>>
+    [] k = "ifelseif" -> <<If(<<Branch(CmpE("==", Var(v), I(0)), <<L(tag \o "-a")>>), Branch(CmpE("==", Var(v), I(1)), <<If1(CmpE(">", Var(v), I(0)), <<L(tag \o "-b")>>), L(tag \o "-c")>>)>>, <<If1(CmpE(">", Var(v), I(1)), <<L(tag \o "-d")>>), L(tag \o "-e")>>), L(tag \o "-z")>>
+LabelCases == {CaseOf("C16/labels/" \o a \o "-" \o b \o "-" \o c,
+                      <<Func("fa", <<Param("n", "int")>>, <<>>, Struct(a, "fa", "n")), Func("fb", <<Param("n", "int")>>, <<>>, Struct(b, "fb", "n") \o <<ExprS(CallE("fa", <<Bin("+", Var("n"), I(1))>>))>>),
+                        Def1("g", I(2)), ExprS(CallE("fa", <<I(2)>>)), ExprS(CallE("fb", <<I(0)>>))>> \o Struct(c, "top", "g") \o <<ExprS(CallE("fb", <<I(1)>>)), L("end")>>)
+               : a \in Structs, b \in Structs, c \in Structs}
+ASSUME ndJsonSerialize("fam.ndjson", SetToSeq(Empty \cup DeepCases \cup FuncCases \cup Builtins \cup Shapes \cup LabelCases))
 =============================================================================
